@@ -332,9 +332,9 @@ func jobs11(tier string) []job11 {
 	for i := len(ss) - 1; i >= 0; i-- {
 		j = append(j, job11{"sweep", ss[i]})
 	}
-	n := 700
+	n := 1000
 	if tier == "thorough" {
-		n = 20000
+		n = 40000
 	}
 	for i := 0; i < n; i++ {
 		j = append(j, job11{"seeded", ss[i%len(ss)]})
